@@ -13,6 +13,7 @@ import (
 	"strconv"
 
 	"filippo.io/age/internal/format"
+	"filippo.io/age/internal/verifhook"
 	"golang.org/x/crypto/chacha20poly1305"
 	"golang.org/x/crypto/scrypt"
 )
@@ -62,6 +63,7 @@ func (r *ScryptRecipient) SetWorkFactor(logN int) {
 const scryptSaltSize = 16
 
 func (r *ScryptRecipient) Wrap(fileKey []byte) ([]*Stanza, error) {
+	verifhook.Point("scrypt.wrap")
 	salt := make([]byte, scryptSaltSize)
 	if _, err := rand.Read(salt[:]); err != nil {
 		return nil, err
@@ -74,6 +76,7 @@ func (r *ScryptRecipient) Wrap(fileKey []byte) ([]*Stanza, error) {
 	}
 
 	salt = append([]byte(scryptLabel), salt...)
+	verifhook.Emit("scrypt.derive", logN)
 	k, err := scrypt.Key(r.password, salt, 1<<logN, 8, 1, chacha20poly1305.KeySize)
 	if err != nil {
 		return nil, fmt.Errorf("failed to generate scrypt hash: %v", err)
@@ -156,6 +159,7 @@ func (i *ScryptIdentity) Unwrap(stanzas []*Stanza) ([]byte, error) {
 var digitsRe = regexp.MustCompile(`^[1-9][0-9]*$`)
 
 func (i *ScryptIdentity) unwrap(block *Stanza) ([]byte, error) {
+	verifhook.Point("scrypt.unwrap")
 	if block.Type != "scrypt" {
 		return nil, ErrIncorrectIdentity
 	}
@@ -184,6 +188,7 @@ func (i *ScryptIdentity) unwrap(block *Stanza) ([]byte, error) {
 	}
 
 	salt = append([]byte(scryptLabel), salt...)
+	verifhook.Emit("scrypt.derive", logN)
 	k, err := scrypt.Key(i.password, salt, 1<<logN, 8, 1, chacha20poly1305.KeySize)
 	if err != nil { // unreachable
 		return nil, fmt.Errorf("failed to generate scrypt hash: %v", err)
